@@ -89,9 +89,14 @@ func (r *raceW) enter(c Conn) {
 	if prev := r.loopThr[i]; prev >= 0 && prev != t && r.confine == "" {
 		r.confine = fmt.Sprintf("callbacks of one event loop ran on threads %d and %d", prev, t)
 	}
+	nested := r.inCb[i] > 0 && r.loopThr[i] == t
 	r.loopThr[i] = t
 	r.inCb[i]++
-	if r.inCb[i] > 1 && r.confine == "" {
+	// a callback entered while another one of the same loop is in progress on ANOTHER thread is an
+	// overlap; on the same thread it is the engine's synchronous re-entrancy (a Write failing inside
+	// OnTraffic closes the connection and calls OnClose before it returns), which is one goroutine
+	// doing one thing at a time
+	if r.inCb[i] > 1 && !nested && r.confine == "" {
 		r.confine = "two callbacks of one event loop overlapped"
 	}
 }
